@@ -1028,6 +1028,129 @@ def exchange_regime_runs(chk):
                mismatches=bad, branches={'records': tot, 'runs': len(fam), 'slowly ventilated hours': slow})
 
 
+# ------------------------------------------------------------------ round 7: settings of the host application
+CHILD_HOST_RUN = r"""
+import sys, io, json, contextlib
+sys.path.insert(0, os.environ["UWG_REPO_"])
+from uwg import UWG
+c = json.loads(os.environ["CFG_"])
+m = UWG.from_param_file(c["param"], epw_path=c["epw"], new_epw_dir=c["out_dir"], new_epw_name=c["out_name"])
+m.month, m.day, m.nday = c["month"], c["day"], c["nday"]
+m.epw_precision = c["precision"]
+m.dtsim = 300
+with contextlib.redirect_stdout(io.StringIO()):
+    m.generate(); m.simulate(); m.write_epw()
+print("RESULT " + json.dumps({
+    "ucm": [None if u is None else [float(x).hex() for x in (u.canTemp, u.canHum, u.canRHum, u.Tdp)] for u in m.UCMData],
+    "staHum": [float(x).hex() for x in m.weather.staHum], "timeInitial": m.simTime.timeInitial}))
+"""
+
+
+def saturated_file(chk):
+    """the saturated rural year of run(): RH = 100 %, dew point = dry bulb in every row"""
+    import csv
+    sat = os.path.join(chk.work(), 'saturated_x1.epw')
+    if not os.path.exists(sat):
+        rows_ = list(csv.reader(open(find_file(*SGP_EPW), newline='', errors='ignore')))
+        for r_ in rows_[8:]:
+            r_[8] = '100'
+            r_[7] = r_[6]
+        with open(sat, 'w', newline='') as f_:
+            csv.writer(f_, lineterminator='\n').writerows(rows_)
+    return sat
+
+
+def host_setting_runs(chk):
+    """(x2) The run in a fresh interpreter in which the HOST application has changed a process- / thread-wide Python
+    setting at start-up (x1_util.HOST_SETTINGS: decimal context, warnings filters, LC_NUMERIC, interpreter settings),
+    on an ordinary day at a coarse precision and on the saturated day (canyon RH above 100 % wherever the canyon is
+    cooler than the station). The records travel back as hex floats; the oracle runs HERE, in an interpreter with
+    default settings: the full C09 oracle of judge_written and, independently, the interval oracle on the written rows
+    alone."""
+    import csv
+    import x1_util as X1
+    rng = chk.rng
+    thorough = chk.tier == 'thorough'
+    members = X1.host_members(rng, 6 if not thorough else len(X1.HOST_SETTINGS))
+    out_dir = tempfile.mkdtemp(prefix='c09-host-', dir=chk.work())
+    sat = saturated_file(chk)
+    scen = [('ordinary', find_file(*SGP_EPW), rng.choice([0, 1]), rng.randint(1, 12), rng.randint(1, 28)),
+            ('saturated', sat, rng.choice([1, 3]), rng.choice([1, 4, 12]), rng.randint(2, 12))]
+    if thorough:
+        scen += [('ordinary', find_file(*SGP_EPW), 2, rng.randint(1, 12), rng.randint(1, 28)),
+                 ('saturated', sat, 0, 1, 2)]
+    param_in = find_file(*SGP_PARAM)
+    jobs = []
+    for (sname, epw_in, prec, month, day) in scen:
+        for mb in members:
+            jobs.append((sname, epw_in, prec, month, day, mb))
+    cfgs = [json.dumps({'param': param_in, 'epw': j[1], 'out_dir': out_dir, 'out_name': 'h%d.epw' % k, 'month': j[3],
+                        'day': j[4], 'nday': 1, 'precision': j[2]}) for k, j in enumerate(jobs)]
+    env = dict(os.environ, UWG_REPO_=core.REPO, UWG_REPO=core.REPO, PYTHONDONTWRITEBYTECODE='1')
+    res = X1.run_host_children([j[5] for j in jobs], CHILD_HOST_RUN, env,
+                               per_member_env=lambda k, mb: {'CFG_': cfgs[k]})
+    tot = bad = 0
+    br = {}
+    seen = {}
+
+    def viol(what, case, observed, expected):
+        nonlocal bad
+        bad += 1
+        seen[what] = seen.get(what, 0) + 1
+        if seen[what] <= 1:
+            chk.violation('impl-violation', what, case=case, observed=observed, expected=expected)
+
+    rural_cache = {}
+    over100 = 0
+    for k, ((sname, epw_in, prec, month, day, mb), (_, rc, so, se)) in enumerate(zip(jobs, res)):
+        tag = {'epw_precision': prec, 'month': month, 'day': day, 'nday': 1, 'dtsim': 300,
+               'epw': os.path.basename(epw_in) + (' with RH = 100 and dew point = dry bulb in every row' if sname == 'saturated' else ''),
+               'param': os.path.basename(param_in), 'host setting': mb['label'],
+               'start-up code of the host': mb.get('code', ''), 'interpreter flags': mb.get('argv', []),
+               'environment variables': mb.get('env', {}),
+               'how': 'fresh interpreter: [python] + flags + -c (x1_util.HOST_PRELUDE + c09.CHILD_HOST_RUN); the oracle is '
+                      'evaluated in the checking process (default settings)'}
+        line = [l for l in so.split('\n') if l.startswith('RESULT ')]
+        br['%s/%s' % (sname, mb['kind'])] = br.get('%s/%s' % (sname, mb['kind']), 0) + 1
+        if rc != 0 or not line:
+            if 'FATAL ERROR' in se:
+                chk.notes.append('C09 host-setting run %s/%s stopped by the model\'s own fail-stop' % (sname, mb['label']))
+                continue
+            if 'Traceback' in se and 'uwg' in se.split('Traceback')[-1]:
+                tot += 1
+                viol('the run completes under a setting of the host application', tag, se[-500:], 'a written file')
+                continue
+            raise core.Infra('C09 host-setting child failed (%s): %s' % (mb['label'], se[-400:]))
+        model = X1.ModelLike(json.loads(line[0][7:]))
+        if epw_in not in rural_cache:
+            with open(epw_in, newline='', errors='ignore') as f:
+                rural_cache[epw_in] = list(csv.reader(f))
+        rural = rural_cache[epw_in]
+        with open(os.path.join(out_dir, 'h%d.epw' % k), newline='') as f:
+            written = list(csv.reader(f))
+        first, n_rec = model.simTime.timeInitial, len(model.UCMData)
+        tot += n_rec
+        over100 += sum(1 for u in model.UCMData if u is not None and u.canRHum > 100.0)
+        judge_written(chk, viol, tag, prec, rural, written, model, first, n_rec)
+        # independently of the records: the interval oracle on the written rows alone
+        judge_written(chk, viol, dict(tag, oracle='written rows only'), prec, rural, written, None, first, n_rec)
+    shutil.rmtree(out_dir, ignore_errors=True)
+    br['recorded hours with canyon RH > 100 %'] = over100
+    chk.direct('moisture oracle under settings of the host application (decimal context, warnings filters, LC_NUMERIC, '
+               'interpreter settings)', tot, tot,
+               'generate/simulate/write_epw (1 day, dt 300) in fresh interpreters whose host has, before importing uwg, set the '
+               'decimal context (ROUND_DOWN / ROUND_FLOOR / ROUND_CEILING / ROUND_UP / ROUND_05UP, prec 3 / 6, traps, '
+               'BasicContext), turned warnings into errors (python -W error, PYTHONWARNINGS=error, simplefilter) or on (-X dev), '
+               'set LC_NUMERIC to a decimal-comma locale, or changed interpreter settings (quick: 6 of the 14 members of '
+               'x1_util.HOST_SETTINGS, one directed rounding mode and one warnings-as-errors member at least; thorough: all) - '
+               'each on an ordinary Singapore day at epw_precision 0 or 1 and on a SATURATED day (rural RH = 100 %: the canyon '
+               'RH exceeds 100 % wherever the canyon is cooler) at precision 1 or 3. Judged in the checking process: canHum = '
+               'staHum of the row bit for bit, recorded RH / Tdp = psychrometrics(canTemp, canHum, P), written dry bulb / dew '
+               'point = the formatted values, and ratio * w_rural inside [hum(RH-d,T-d,P), hum(RH+d,T+d,P)] for the written T, '
+               'RH with d = half a unit of the last decimal (the last also from the written rows alone)',
+               mismatches=bad, branches=br)
+
+
 def run(chk):
     chk.proof(MODULE, THEOREMS)
     if chk.tier == 'thorough':
@@ -1117,6 +1240,7 @@ def run(chk):
                mismatches=totbad, branches={'records': tot, 'windows': len(windows)})
     exchange_regime_runs(chk)
     circumstance_runs(chk)
+    host_setting_runs(chk)
     chk.assumptions.append(
         'C09: libm exp/log/pow are interpreted by Real.exp/Real.log/rpow in the theorems and by the '
         'shared rational stubs in the exact tie; IEEE rounding only enters the float oracles '
